@@ -15,6 +15,11 @@
 //	        merger is recorded (CalcBudget / ScoreSegments hooks of MergePlanOptions + the root trace of the verif
 //	        build) and becomes one line "rplan <opts> | <segs> | <scores>": the real Plan re-run on exactly the
 //	        segment list the merger passed; the driver first evaluates idsDistinct / sizesSane on it.
+//	defaults                               the MergePlanOptions of index.DefaultConfig / InMemoryOnlyConfig / DefaultConfigWithDirectory
+//	        (what every writer plans with) and mergeplan.DefaultMergePlanOptions, field by field
+//	wplan   <fs|mem|dir> | <segs>          a plan line with the writer's options (resolved from the real constructor at exec
+//	        time; the model line carries them); "case hw<N> <fs|mem|dir>" is a history with them (2000-document batches far
+//	        beyond the first tier); the driver also judges the budget the planner computed against budget_logarithmic_rat
 //	witness                                the real ScoreSegments on the six rosters of the Lean witness
 //	        livelock_real_scores
 //	livelock: the concrete input of the finding plan-only-noop-singletons as a plan line and as a history; only
@@ -816,6 +821,48 @@ func (*h) Gen(r *hlib.Rand, tier string, scale int, emit func(string)) {
 	for i := 0; i < hs; i++ {
 		genHistory(r, i, thorough, emit)
 	}
+	// --- the options the writer really uses (index.DefaultConfig / InMemoryOnlyConfig / DefaultConfigWithDirectory):
+	// compared with mergeplan.DefaultMergePlanOptions, one-shot plans and histories of 2000-document batches that
+	// go well beyond the first tier (10 x 2000 live documents)
+	emit("case d1")
+	emit("defaults")
+	wn := 0
+	for _, k := range writerKinds {
+		for _, cnt := range []int{9, 12, 25, 45, 80} {
+			var ss []*seg
+			for i := 0; i < cnt; i++ {
+				sz := int64(2000)
+				if r.Chance(30) {
+					sz = int64(r.Range(1500, 6000))
+				}
+				ss = append(ss, &seg{uint64(i + 1), sz, sz})
+			}
+			if cnt >= 45 && r.Bool() {
+				ss = append(ss, &seg{uint64(cnt + 1), 200000, 200000}, &seg{uint64(cnt + 2), 150000, 140000})
+			}
+			wn++
+			emit(fmt.Sprintf("case wp%d", wn))
+			emit("wplan " + k + " | " + segsString(ss))
+		}
+	}
+	for i, k := range writerKinds {
+		emit(fmt.Sprintf("case hw%d %s", i, k))
+		id := uint64(1)
+		nbat := 70
+		if thorough {
+			nbat = 400
+		}
+		for b := 0; b < nbat; b++ {
+			sz := int64(2000)
+			if i > 0 && r.Chance(25) {
+				sz = int64(r.Range(2000, 5000))
+			}
+			emit(fmt.Sprintf("add %d:%d:%d", id, sz, sz))
+			id++
+			emit("step")
+		}
+		emit("settle 50")
+	}
 	// --- real writers: what the real merger passes to the planner
 	rs := 24 * scale
 	if thorough {
@@ -947,6 +994,23 @@ func (hi *history) planStep(out func(string, string), st *hlib.Stats) (tasks int
 
 func (x *h) Exec(line string, out func(string, string), st *hlib.Stats, work string) {
 	switch {
+	case strings.HasPrefix(line, "case hw"):
+		// a history with the merge-plan options a WRITER really uses: resolved here from the real constructor, the
+		// model's case line carries them
+		w := strings.Split(line, " ")
+		if len(w) < 3 {
+			out(line, "bad-op")
+			return
+		}
+		o, ok := writerOpts(w[2])
+		if !ok {
+			out(line, "bad-op")
+			return
+		}
+		x.hist = &history{o: o, nextID: 1 << 40}
+		st.Count("writer-options:" + w[2])
+		out("case "+w[1]+" "+o.String(), "case")
+		return
 	case strings.HasPrefix(line, "case h"):
 		w := strings.Split(line, " ")
 		o, ok := parseOpts(w[2:])
@@ -1055,6 +1119,38 @@ func (x *h) Exec(line string, out func(string, string), st *hlib.Stats, work str
 		st.Count("op:budget")
 		st.Case(line, total > 0)
 		out(line, res)
+	case "defaults":
+		// the options every writer opened through the index package's constructors plans with, field by field
+		res := hlib.Catch(func() string {
+			var parts []string
+			for _, k := range writerKinds {
+				o, _ := writerOpts(k)
+				parts = append(parts, k+"="+strings.ReplaceAll(o.String(), " ", ","))
+			}
+			d := mergeplan.DefaultMergePlanOptions
+			pk := opts{d.MaxSegmentsPerTier, d.MaxSegmentSize, d.SegmentsPerMergeTask, d.FloorSegmentSize, d.TierGrowth, d.ReclaimDeletesWeight}
+			parts = append(parts, "mergeplan="+strings.ReplaceAll(pk.String(), " ", ","))
+			return strings.Join(parts, " ")
+		})
+		st.Count("op:defaults")
+		st.Case(line, true)
+		out(line, res)
+	case "wplan":
+		parts := strings.Split(rest, " | ")
+		if len(parts) < 2 {
+			out(line, "bad-op")
+			return
+		}
+		o, ok := writerOpts(strings.TrimSpace(parts[0]))
+		ss, ok2 := parseSegs(parts[1])
+		if !ok || !ok2 {
+			out(line, "bad-op")
+			return
+		}
+		ob := observePlan(ss, o)
+		st.Count("op:wplan")
+		st.Case(o.String()+"|"+parts[1], ob.plan != nil && len(ob.plan.Tasks) > 0)
+		out("wplan "+o.String()+" | "+parts[1]+" | "+ob.scores, ob.result())
 	case "witness":
 		res := hlib.Catch(func() string {
 			o := mergeplan.DefaultMergePlanOptions
@@ -1168,6 +1264,27 @@ func classify(ob planObs) string {
 }
 
 var _ = sort.Ints
+
+// ---------------------------------------------------------------- the options a writer really uses
+
+var writerKinds = []string{"fs", "mem", "dir"}
+
+// writerOpts: MergePlanOptions of the configuration the index package's constructors hand to OpenWriter
+func writerOpts(kind string) (opts, bool) {
+	var c index.Config
+	switch kind {
+	case "fs":
+		c = index.DefaultConfig(filepath.Join(os.TempDir(), "c19-never-opened"))
+	case "mem":
+		c = index.InMemoryOnlyConfig()
+	case "dir":
+		c = index.DefaultConfigWithDirectory(func() index.Directory { return index.NewInMemoryDirectory() })
+	default:
+		return opts{}, false
+	}
+	m := c.MergePlanOptions
+	return opts{m.MaxSegmentsPerTier, m.MaxSegmentSize, m.SegmentsPerMergeTask, m.FloorSegmentSize, m.TierGrowth, m.ReclaimDeletesWeight}, true
+}
 
 // ---------------------------------------------------------------- real writers
 
